@@ -45,7 +45,8 @@ func gen(t *rapid.T) *Case {
 		// (schema default, running value, another owner) takes over
 		pairs := [][2]string{{"defmode-on", "must-default-ok"}, {"defmode-on-dep", "must-default-ok"}, {"defmode-off", "must-default-ok"},
 			{"via-ok", "via-ok2"}, {"via-ok", "wref-ok"}, {"svc-a", "via-ok"}, {"svc-a", "wref-ok"}, {"via-ok2", "chk-ok"},
-			{"defmode-off", "dep2-only"}, {"defmode-off-dep2", "plain-1"}}
+			{"defmode-off", "dep2-only"}, {"defmode-off-dep2", "plain-1"},
+			{"sd-off", "plain-1"}, {"sd-off", "sd-other-only"}, {"sd-off", "sd-en"}}
 		p := rapid.SampledFrom(pairs).Draw(t, "takeover-pair")
 		oa, ob := 0, 1
 		if rapid.Bool().Draw(t, "takeover-swap") {
@@ -61,7 +62,7 @@ func gen(t *rapid.T) *Case {
 		}
 		if rapid.Bool().Draw(t, "takeover-shrink") {
 			// A stays but its new version no longer holds the value (an update that drops a leaf)
-			shr := mk(oa, rapid.SampledFrom([]string{"plain-1", "dep2-only", "must-default-ok", "rng-s-ok"}).Draw(t, "takeover-rest"))
+			shr := mk(oa, rapid.SampledFrom([]string{"plain-1", "dep2-only", "must-default-ok", "rng-s-ok", "sd-other-only"}).Draw(t, "takeover-rest"))
 			c.Steps = append(c.Steps, vlib.Step{Intents: []vlib.IntentOp{shr}})
 		} else {
 			c.Steps = append(c.Steps, vlib.Step{Intents: []vlib.IntentOp{{Owner: oa, Kind: "delete", Keep: true, Form: "typed"}}})
